@@ -185,9 +185,17 @@ def _scan_class(cls, src_rel):
                 guarded[a] = {"guard_attrs": sorted(guard_attrs),
                               "written_by_apply": sorted(guard_attrs & closure(["apply_nonlinear"], "writes")) if "apply_nonlinear" in scans else [],
                               "written_by_linearize": sorted(guard_attrs & closure(["linearize"], "writes")) if "linearize" in scans else []}
+    # ... and a factorization that LINEARIZE refreshes only conditionally (and that solve_nonlinear does not refresh): whatever the
+    # condition looks at - the state, a counter - it is not the matrix itself, so the factors can belong to an earlier point
+    guarded_lin = []
+    if "linearize" in scans:
+        gl = closure(["linearize"], "guarded_writes")
+        sn_w = closure(["solve_nonlinear"], "writes") if "solve_nonlinear" in scans else set()
+        guarded_lin = sorted(a for a in lu if a in gl and a not in sn_w)
     return {
         "class": cls.name,
         "file": src_rel,
+        "lu_guarded_lin": guarded_lin,
         "methods": sorted(m for m in methods if m in COMPUTE | PARTIALS),
         "caches": caches,
         "lu": lu,
@@ -381,6 +389,8 @@ def to_tla(tab):
     guarded = []
     g_apply = []
     g_lin = []
+    g_linref = []
+    refac_run = []
     for c in tab["components"]:
         name = c["class"]
         has_p = any(m in c["methods"] for m in PARTIALS)
@@ -404,6 +414,10 @@ def to_tla(tab):
             implicit.append(name)
             if any("linearize" in r for r in c["lu_refresh"].values()):
                 refac.append(name)
+            if c.get("lu_guarded_lin"):
+                g_linref.append(name)
+            if any("solve_nonlinear" in r for r in c["lu_refresh"].values()):
+                refac_run.append(name)
             if c.get("lu_guarded"):
                 guarded.append(name)
                 if any(g["written_by_apply"] for g in c["lu_guarded"].values()):
@@ -440,6 +454,8 @@ def to_tla(tab):
     lines.append("GuardedRefactor == " + sset(guarded) + "      \\* solve_nonlinear refreshes the factorization only if a guard on instance attributes fires")
     lines.append("GuardSeesApply == " + sset(g_apply) + "       \\* ... and residual evaluation (apply_nonlinear) overwrites an attribute the guard reads")
     lines.append("GuardSeesLinearize == " + sset(g_lin) + "   \\* ... and linearize overwrites an attribute the guard reads")
+    lines.append("RefactorsOnRun == " + sset(refac_run) + "   \\* solve_nonlinear stores the factorization it computes (otherwise it works with a local one)")
+    lines.append("GuardedRefactorLin == " + sset(g_linref) + "   \\* linearize refreshes the factorization only if a guard fires, and solve_nonlinear does not refresh it")
     lines.append("SetupStateful == " + sset(sorted(tab.get("setup_stateful", {}))) + "   \\* systems whose setup() adds to an instance container created once per instance (a second Problem.setup() starts from the leftovers)")
     lines.append("=============================================================================")
     return "\n".join(lines) + "\n"
